@@ -167,6 +167,10 @@ func (c *treeCM) Block(id types.BlockID) (types.Block, bool) {
 	} else {
 		b = c.path[i].Block
 	}
+	if c.lie == "checkpoint-without-payouts" && b.V2 != nil {
+		// the id of a v2 block does not cover its miner payouts
+		b.MinerPayouts = nil
+	}
 	if c.wrongTxnsFor == id {
 		// answer SendTransactions with transactions of another block, or with
 		// none if no other block has any
@@ -233,7 +237,7 @@ func (c *treeCM) TransactionsForPartialBlock([]types.Hash256) ([]types.Transacti
 	return nil, nil
 }
 
-var c11Lies = []string{"invalid-block-in-heavier-chain", "header-insufficient-work", "header-wrong-parent", "header-timestamp", "headers-remaining-lie", "blocks-wrong-count", "blocks-too-many", "blocks-mismatch", "blocks-reordered", "bogus-checkpoint", "checkpoint-foundation-address", "checkpoint-state-of-other-block", "stall", "garbage-nodes", "honest"}
+var c11Lies = []string{"invalid-block-in-heavier-chain", "header-insufficient-work", "header-wrong-parent", "header-timestamp", "headers-remaining-lie", "blocks-wrong-count", "blocks-too-many", "blocks-mismatch", "blocks-reordered", "bogus-checkpoint", "checkpoint-foundation-address", "checkpoint-state-of-other-block", "checkpoint-without-payouts", "stall", "garbage-nodes", "honest"}
 
 var c11Announcements = []string{"none", "header-insufficient-work", "outline-invalid-block", "outline-wrong-missing-transactions", "empty-transaction-set", "transaction-set-unknown-basis", "header-unknown-parent"}
 
@@ -906,7 +910,7 @@ var _ = sim.NewEnv
 func init() {
 	register(&Prop{
 		ID: "C11", Run: runC11, Race: true, RunTimeout: 20, Quick: 1500, Thorough: 40000, Level: "exploration",
-		Rule:        "one run = a victim node (real syncer + gateway + mux + manager) started on a drawn ancestor of the honest chain, 1-3 honest real nodes, and 1-2 Byzantine nodes: real syncers whose ChainManager is a harness object serving a chosen path of the generated tree (optionally a heavier header-valid chain with a single-field-invalid block in the middle) and lying in one drawn way {insufficient-work header, wrong parent, bad timestamp, wrong remaining count, fewer / more / other-branch / reordered blocks, tampered checkpoint state, stalling past the timeout, garbage node addresses, honest}; in 1 run in 3 a raw peer that spoils handshakes and writes raw bytes into mux streams (unknown ids, random bytes, truncated encodings, absurd length prefixes, trailing garbage, silence); after the victim has synced, one drawn announcement sent by the first Byzantine node straight to the victim {header with insufficient work, header with unknown parent, outline of an invalid block on the victim's tip, outline whose missing transactions are answered with other transactions, empty transaction set, transaction set with unknown basis}; oracles at every poll: C01 audit of the victim, total work never decreases, no recovered handler panic, no process death; 40 simulated minutes after the Byzantine peers left the victim is on the heaviest honest chain; provable misbehaviour (insufficient-work header, invalid outline block, wrong missing transactions, empty set) is reported to PeerStore.Ban and honest peers are not; distinct = (regime, lie, announcement); all runs non-trivial",
+		Rule:        "one run = a victim node (real syncer + gateway + mux + manager) started on a drawn ancestor of the honest chain, 1-3 honest real nodes, and 1-2 Byzantine nodes: real syncers whose ChainManager is a harness object serving a chosen path of the generated tree (optionally a heavier header-valid chain with a single-field-invalid block in the middle) and lying in one drawn way {insufficient-work header, wrong parent, bad timestamp, wrong remaining count, fewer / more / other-branch / reordered blocks, tampered checkpoint state (counters, foundation addresses, state of another block), a checkpoint block stripped of its miner payouts, stalling past the timeout, garbage node addresses, honest}; in 1 run in 3 a raw peer that spoils handshakes and writes raw bytes into mux streams (unknown ids, random bytes, truncated encodings, absurd length prefixes, trailing garbage, silence); after the victim has synced, one drawn announcement sent by the first Byzantine node straight to the victim {header with insufficient work, header with unknown parent, outline of an invalid block on the victim's tip, outline whose missing transactions are answered with other transactions, empty transaction set, transaction set with unknown basis}; oracles at every poll: C01 audit of the victim, total work never decreases, no recovered handler panic, no process death; 40 simulated minutes after the Byzantine peers left the victim is on the heaviest honest chain; provable misbehaviour (insufficient-work header, invalid outline block, wrong missing transactions, empty set) is reported to PeerStore.Ban and honest peers are not; distinct = (regime, lie, announcement); all runs non-trivial",
 		Real:        []string{"victim and honest nodes: syncer.Syncer, gateway, mux, chain.Manager, chain.DBStore", "Byzantine nodes: real syncer / gateway / mux (well-formed encodings) over a lying ChainManager"},
 		Stub:        []string{"network: simnet", "peer store: harness peerStore with real bans", "disk: simdisk.DB", "Byzantine chain manager: harness treeCM"},
 		Assumptions: []string{"ban expectations only for misbehaviour the code itself calls ban-worthy"},
